@@ -297,6 +297,49 @@ pub fn extras(out: &mut dyn Write, r: &mut ChaCha20Rng, n: usize) {
     }
 }
 
+/// G1 curve points given by coordinates (tools/g1_points.py: y on the boundary that decides the sign bit):
+/// both engines read them with the unchecked deserialiser and write them back in both modes, for P and -P
+pub fn points(out: &mut dyn Write, file: &str) {
+    emit(out, json!({"k":"reset","build":BUILD}));
+    let text = std::fs::read_to_string(file).expect("points file");
+    for line in text.lines() {
+        let v: serde_json::Value = serde_json::from_str(line).expect("json");
+        let x: Vec<u8> = serde_json::from_value(v["x"].clone()).unwrap();
+        let y: Vec<u8> = serde_json::from_value(v["y"].clone()).unwrap();
+        let mut unc = x.clone();
+        unc.extend_from_slice(&y);
+        type AO = <<Ours as Pairing>::G1 as CurveGroup>::Affine;
+        type AR = <<Refe as Pairing>::G1 as CurveGroup>::Affine;
+        let po = AO::deserialize_uncompressed_unchecked(&unc[..]);
+        let pr = AR::deserialize_uncompressed_unchecked(&unc[..]);
+        let mut ev = json!({"k":"blspt","x":x,"y":y,"ours_ok":po.is_ok(),"ref_ok":pr.is_ok()});
+        if let (Ok(a), Ok(b)) = (po, pr) {
+            use core::ops::Neg;
+            let (na, nb) = (a.neg(), b.neg());
+            let ca = ser(&a, true);
+            let cb = ser(&b, true);
+            // decompress what each engine wrote, with both engines
+            let back = |bytes: &[u8]| -> (Vec<u8>, Vec<u8>) {
+                (
+                    AO::deserialize_compressed_unchecked(bytes).map(|p| ser(&p, false)).unwrap_or_default(),
+                    AR::deserialize_compressed_unchecked(bytes).map(|p| ser(&p, false)).unwrap_or_default(),
+                )
+            };
+            let (oo, or_) = back(&ca);
+            ev["ours_c"] = json!(ca);
+            ev["ref_c"] = json!(cb);
+            ev["ours_u"] = json!(ser(&a, false));
+            ev["ref_u"] = json!(ser(&b, false));
+            ev["ours_nc"] = json!(ser(&na, true));
+            ev["ref_nc"] = json!(ser(&nb, true));
+            ev["ours_back"] = json!(oo);
+            ev["ref_back"] = json!(or_);
+            ev["on_curve"] = json!(a.is_on_curve() && b.is_on_curve());
+        }
+        emit(out, ev);
+    }
+}
+
 trait ZeroPt {
     fn zero_pt() -> Self;
 }
